@@ -47,6 +47,9 @@ def run(tier, seed):
                 continue
             pos = rng.randrange(len(r["modules"]))
             old = r["modules"][pos]
+            if rng.random() < 0.5:        # sequencing-verified inputs: every one carries a per-letter quality track (the replacement need not)
+                for x in [r["vector"]] + r["modules"]:
+                    x["letter"] = True
             import copy as _copy
             mod = _copy.deepcopy(old)
             mod["id"] = "new"
@@ -59,6 +62,7 @@ def run(tier, seed):
                 mod["rot"] = rng.randrange(1, len(old["seq"]))           # stored at another origin (the library's own >>)
             else:
                 mod.update(seq=gen.rotate(old["seq"], rng.randrange(1, len(old["seq"]))), feats=[], refs=[])
+                mod.pop("letter", None)
             r["twin"] = {"by": "swap", "pos": pos, "reuse": True, "mod": mod}
             recipes.append(r)
     if True:       # same-type replacements among real registry plasmids
